@@ -139,8 +139,15 @@ impl Q {
                 let db = d.bits() as i64;
                 let shift = (db - nb + 64).max(0) as usize;
                 let q: BigInt = (n << shift) / d;
-                let f = q.to_f64().unwrap_or(f64::NAN);
-                f * (2f64).powi(-(shift as i32))
+                let mut f = q.to_f64().unwrap_or(f64::NAN);
+                // f * 2^-shift without underflow of the scale factor itself
+                let mut left = shift as i64;
+                while left > 0 {
+                    let step = left.min(512);
+                    f *= (2f64).powi(-(step as i32));
+                    left -= step;
+                }
+                f
             }
         }
     }
